@@ -16,7 +16,7 @@ using namespace asmjit;
 enum Kind : uint8_t { K_NONE, K_GP8, K_GP16, K_GP32, K_GP64, K_MM, K_XMM, K_YMM, K_ZMM, K_KREG, K_MEM, K_IMM, K_VMEM /* VSIB memory: size = 1 xmm, 2 ymm, 3 zmm index */, K_ST /* x87 stack register */ };
 enum Role : uint8_t { R_NONE, R_REG, R_RM, R_VVVV, R_IS4, R_OPREG, R_IMM };
 enum Enc : uint8_t { E_LEGACY, E_VEX, E_EVEX, E_XOP };
-enum : uint8_t { F_K = 1, F_Z = 2, F_NOABS_ACC = 4, F_PREFER_EVEX = 8 };
+enum : uint8_t { F_K = 1, F_Z = 2, F_NOABS_ACC = 4, F_PREFER_EVEX = 8, F_ER = 16, F_SAE = 32 };
 
 struct Op { uint8_t kind, role; uint16_t size; int16_t fixed; char acc; };  // fixed: -1 free; >= 0 required register id / immediate value; -2 sign-extended immediate; -3 zero-extended (unsigned) immediate
 struct Form {
@@ -42,6 +42,7 @@ struct Given {
   bool gp8_hi[4], gp8_needs_rex[4];
   MemX mem; int mem_index;   // operand index of the memory operand or -1
   uint64_t imm; uint32_t k; bool z;
+  uint32_t er;   // 0: none; 1..4: {rn|rd|ru|rz-sae} (embedded rounding); 5: {sae}
 };
 
 // ---- decoded fields
@@ -168,11 +169,15 @@ static bool matches(const Form& f, const Dec& d, const Given& g, bool x64) {
     CHK(d.opcode == f.opcode);
     CHK(d.pp == f.pp && d.map == f.map);
     if (f.w != 2) CHK(d.W == f.w);
-    if (f.l != 3) CHK(d.L == f.l);
+    // EVEX.b with register operands: embedded rounding (L'L carries the rounding mode, the operation is 512-bit or scalar) or {sae}
+    // (L'L ignored, SDM Vol.2 2.7.4/2.7.5); only records decorated {er}/{sae} have such a form and only for their 512-bit / scalar variant
+    if (g.er) { CHK(f.enc == E_EVEX && !mem_present && (f.l == 2 || f.l == 3)); CHK(g.er <= 4 ? (f.flags & F_ER) != 0 : (f.flags & (F_SAE | F_ER)) != 0); }
+    if (f.l != 3 && !g.er) CHK(d.L == f.l);
+    if (g.er >= 1 && g.er <= 4) CHK(d.L == g.er - 1);
     if (f.enc != E_EVEX) { CHK(d.L <= 1); CHK(g.k == 0 && !g.z); }
     if (f.enc == E_EVEX) {
-      CHK(d.L != 3);
-      CHK(d.aaa == g.k && d.z == (g.z ? 1u : 0u) && d.b == 0);
+      if (!g.er) CHK(d.L != 3);
+      CHK(d.aaa == g.k && d.z == (g.z ? 1u : 0u) && d.b == (g.er ? 1u : 0u));
       if (!(f.flags & F_K)) CHK(g.k == 0);
       if (!(f.flags & F_Z)) CHK(!g.z);
     }
@@ -364,6 +369,21 @@ static void build_operands(const Form* forms, uint32_t nforms, int evex_split, O
     g.k = pick(7);
     if ((kflags & F_Z) && g.k && nondet_bool()) { g.z = true; }
   }
+  if ((kflags & (F_ER | F_SAE)) && g.mem_index < 0) {   // decoration offered whenever a record of the group has it; none / the four rounding modes / {sae}
+    uint32_t er = pick(7); V_ASSUME(er <= 5);
+    if (!(kflags & F_ER)) V_ASSUME(er == 0 || er == 5);
+    if (in_domain) {   // C13: only where the records allow it (the decorated record must be the one the operands select: 512-bit or scalar)
+      bool allowed = false;
+      for (uint32_t i = 0; i < nforms; i++) {
+        if (!(forms[i].flags & (er <= 4 ? F_ER : (F_ER | F_SAE)))) continue;
+        bool kinds_match = true;
+        for (uint32_t k = 0; k < forms[i].nops; k++) if (forms[i].ops[k].kind != f0.ops[k].kind) kinds_match = false;
+        if (kinds_match) allowed = true;
+      }
+      if (!allowed) er = 0;
+    }
+    g.er = er;
+  }
   if (in_domain) {   // a register operand that every record of the group fixes (cl, dx, al..) takes that register
     for (uint32_t k = 0; k < f0.nops; k++) {
       if (f0.ops[k].kind < K_GP8 || f0.ops[k].kind > K_GP64 || f0.ops[k].fixed < 0) continue;
@@ -391,6 +411,13 @@ static void build_operands(const Form* forms, uint32_t nforms, int evex_split, O
   }
 }
 
+static inline void apply_decorations(x86::Assembler* a, const Given& g) {
+  if (g.k) a->_extra_reg.init(x86::k(g.k));
+  if (g.z) a->_inst_options |= InstOptions::kX86_ZMask;
+  if (g.er >= 1 && g.er <= 4) a->_inst_options |= InstOptions::kX86_ER | InstOptions(uint32_t(InstOptions::kX86_RN_SAE) + ((g.er - 1) << Support::ctz_const<InstOptions::kX86_ERMask>));
+  if (g.er == 5) a->_inst_options |= InstOptions::kX86_SAE;
+}
+
 // evex_split: 0 = whole group; 1 = only operands for which the encoder does not need EVEX; 2 = only those that need it
 template<bool X64>
 static void run_forms(const Form* forms, uint32_t nforms, int evex_split = 0) {
@@ -398,8 +425,7 @@ static void run_forms(const Form* forms, uint32_t nforms, int evex_split = 0) {
   Operand_ o[4]; Given g;
   build_operands<X64>(forms, nforms, evex_split, o, g);
   x86::Assembler* a = venv::make_asm(X64, true);
-  if (g.k) a->_extra_reg.init(x86::k(g.k));
-  if (g.z) a->_inst_options |= InstOptions::kX86_ZMask;
+  apply_decorations(a, g);
   Operand_ ext[3]; ext[0] = o[3]; ext[1].reset(); ext[2].reset();
   Error e = a->x86::Assembler::_emit(f0.inst, o[0], o[1], o[2], ext);
   size_t n = venv::emitted();
@@ -429,15 +455,13 @@ static void run_agree(const Form* forms, uint32_t nforms, int split = 0) {
   uint8_t b1[16]; Error e1, e2; size_t n1, n2;
   {
     x86::Assembler* a = venv::make_asm(X64, true);
-    if (g.k) a->_extra_reg.init(x86::k(g.k));
-    if (g.z) a->_inst_options |= InstOptions::kX86_ZMask;
+    apply_decorations(a, g);
     e1 = a->x86::Assembler::_emit(f0.inst, o[0], o[1], o[2], ext); n1 = venv::emitted();
     memcpy(b1, venv::buf, 16);
   }
   {
     x86::Assembler* a = venv::make_asm(X64, false);
-    if (g.k) a->_extra_reg.init(x86::k(g.k));
-    if (g.z) a->_inst_options |= InstOptions::kX86_ZMask;
+    apply_decorations(a, g);
     e2 = a->x86::Assembler::_emit(f0.inst, o[0], o[1], o[2], ext); n2 = venv::emitted();
   }
   verif_observe(uint32_t(e1)); verif_observe(uint32_t(e2)); verif_observe(n1); verif_observe(n2);
@@ -462,8 +486,7 @@ static void run_logindep(const Form* forms, uint32_t nforms, int split = 0) {
   uint8_t b1[16]; Error e1, e2; size_t n1, n2;
   {
     x86::Assembler* a = venv::make_asm(X64, false);
-    if (g.k) a->_extra_reg.init(x86::k(g.k));
-    if (g.z) a->_inst_options |= InstOptions::kX86_ZMask;
+    apply_decorations(a, g);
     e1 = a->x86::Assembler::_emit(f0.inst, o[0], o[1], o[2], ext); n1 = venv::emitted();
     memcpy(b1, venv::buf, 16);
     V_ASSERT(venv::n_logged == 0, "nothing is logged without a logger");
@@ -472,8 +495,7 @@ static void run_logindep(const Form* forms, uint32_t nforms, int split = 0) {
     x86::Assembler* a = venv::make_asm(X64, false);
     a->_logger = reinterpret_cast<Logger*>(dummy_logger_storage);   // never dereferenced: the logging call is a stub
     a->_forced_inst_options |= InstOptions::kReserved;              // as BaseEmitter::on_settings_updated() sets it when a logger is present
-    if (g.k) a->_extra_reg.init(x86::k(g.k));
-    if (g.z) a->_inst_options |= InstOptions::kX86_ZMask;
+    apply_decorations(a, g);
     e2 = a->x86::Assembler::_emit(f0.inst, o[0], o[1], o[2], ext); n2 = venv::emitted();
     V_ASSERT(uint32_t(a->_inst_options) == 0 && !a->_extra_reg.is_reg() && a->_inline_comment == nullptr, "one-shot state cleared with a logger attached");
   }
